@@ -713,7 +713,9 @@ class VectorAwkward:
                 for name in fields:
                     if name not in (
                         "x",
+                        "px",
                         "y",
+                        "py",
                         "rho",
                         "pt",
                         "phi",
@@ -721,9 +723,12 @@ class VectorAwkward:
                         names.append(name)
                         arrays.append(self[name])
 
-            if "t" in fields or "tau" in fields:
+            if any(
+                x in fields
+                for x in ("t", "tau", "E", "e", "energy", "M", "m", "mass")
+            ):
                 cls = cls.ProjectionClass4D
-            elif "z" in fields or "theta" in fields or "eta" in fields:
+            elif any(x in fields for x in ("z", "pz", "theta", "eta")):
                 cls = cls.ProjectionClass3D
             else:
                 cls = cls.ProjectionClass2D
@@ -762,7 +767,9 @@ class VectorAwkward:
                 for name in ak.fields(self):
                     if name not in (
                         "x",
+                        "px",
                         "y",
+                        "py",
                         "rho",
                         "pt",
                         "phi",
@@ -828,7 +835,9 @@ class VectorAwkward:
                 for name in fields:
                     if name not in (
                         "x",
+                        "px",
                         "y",
+                        "py",
                         "rho",
                         "pt",
                         "phi",
@@ -840,7 +849,10 @@ class VectorAwkward:
                         names.append(name)
                         arrays.append(self[name])
 
-            if "t" in fields or "tau" in fields:
+            if any(
+                x in fields
+                for x in ("t", "tau", "E", "e", "energy", "M", "m", "mass")
+            ):
                 cls = cls.ProjectionClass4D
             else:
                 cls = cls.ProjectionClass3D
@@ -891,7 +903,9 @@ class VectorAwkward:
                 for name in ak.fields(self):
                     if name not in (
                         "x",
+                        "px",
                         "y",
+                        "py",
                         "rho",
                         "pt",
                         "phi",
@@ -965,7 +979,9 @@ class VectorAwkward:
                 for name in ak.fields(self):
                     if name not in (
                         "x",
+                        "px",
                         "y",
+                        "py",
                         "rho",
                         "pt",
                         "phi",
